@@ -82,9 +82,9 @@ Proof. exact @min_point_ok_model. Qed.
 Print Assumptions C06_min_point_ok_model.
 
 (* non-vacuity: the curve [[0,3],[1,1],[2,2],[3,2],[4,1],[5,3]] with the default configuration (shortest, segment, smape):
-   tables = the library's primitives, the chain and the query outputs are what the implementation returned; thresholds
+   tables = the library's primitives (priorities derived from the residual table), the chain and the query outputs are what the implementation returned; thresholds
    include exact ties with observed global costs (which are not monotone along the chain here).  judge = 0: the model
    reproduces every output and the predicates hold. *)
 Example C06_example :
-  judge (CG 6%nat false [((0%nat, 3%nat), [0x0.0p+0%float; 0x1.5775c544ff263p+0%float; 0x0.0p+0%float]); ((0%nat, 4%nat), [0x0.0p+0%float; 0x1.94c583ada5b52p+0%float; 0x1.43d136248490ep-2%float; 0x0.0p+0%float]); ((0%nat, 5%nat), [0x0.0p+0%float; 0x1.5775c544ff263p+0%float; 0x0.0p+0%float; 0x1.c9f25c5bfeddap-2%float; 0x0.0p+0%float]); ((0%nat, 6%nat), [0x0.0p+0%float; 0x1.0000000000000p+1%float; 0x1.0000000000000p+0%float; 0x1.0000000000000p+0%float; 0x1.0000000000000p+1%float; 0x0.0p+0%float]); ((1%nat, 4%nat), [0x0.0p+0%float; 0x1.c9f25c5bfedd9p-2%float; 0x0.0p+0%float]); ((1%nat, 5%nat), [0x0.0p+0%float; 0x1.0000000000000p+0%float; 0x1.0000000000000p+0%float; 0x0.0p+0%float]); ((1%nat, 6%nat), [0x0.0p+0%float; 0x1.c9f25c5bfedd9p-2%float; 0x0.0p+0%float; 0x1.5775c544ff263p+0%float; 0x0.0p+0%float]); ((2%nat, 5%nat), [0x0.0p+0%float; 0x1.c9f25c5bfedd9p-2%float; 0x0.0p+0%float]); ((2%nat, 6%nat), [0x0.0p+0%float; 0x1.43d136248490fp-2%float; 0x1.94c583ada5b52p+0%float; 0x0.0p+0%float]); ((3%nat, 6%nat), [0x0.0p+0%float; 0x1.5775c544ff263p+0%float; 0x0.0p+0%float])] [((0%nat, 3%nat), 0x1.2000000000000p+1%float); ((0%nat, 4%nat), 0x1.71c71c71c71c6p+1%float); ((0%nat, 5%nat), 0x1.4000000000000p+1%float); ((1%nat, 4%nat), 0x1.0000000000000p-2%float); ((1%nat, 5%nat), 0x1.0000000000000p+1%float); ((1%nat, 6%nat), 0x1.4000000000000p+1%float); ((2%nat, 5%nat), 0x1.0000000000000p-2%float); ((2%nat, 6%nat), 0x1.71c71c71c71c9p+1%float); ((3%nat, 6%nat), 0x1.2000000000000p+1%float)] [([0%nat; 5%nat], 0x1.dddddddddddddp-2%float); ([0%nat; 1%nat; 5%nat], 0x1.4e5e0a72f0539p-3%float); ([0%nat; 1%nat; 4%nat; 5%nat], 0x1.5555555555555p-3%float); ([0%nat; 1%nat; 2%nat; 4%nat; 5%nat], 0x1.0410410410410p-5%float); ([0%nat; 1%nat; 2%nat; 3%nat; 4%nat; 5%nat], 0x0.0p+0%float)] [[0%nat; 5%nat]; [0%nat; 1%nat; 5%nat]; [0%nat; 1%nat; 4%nat; 5%nat]; [0%nat; 1%nat; 2%nat; 4%nat; 5%nat]; [0%nat; 1%nat; 2%nat; 3%nat; 4%nat; 5%nat]] [QGrdp 0x1.ddddddddddddep-2%float (Some ([0%nat; 5%nat], [(0%nat, 4%nat)])); QMp 0x1.ddddddddddddep-2%float 3%nat (Some ([0%nat; 1%nat; 5%nat], [(0%nat, 0%nat); (1%nat, 3%nat)])); QMp 0x1.ddddddddddddep-2%float 5%nat (Some ([0%nat; 1%nat; 2%nat; 4%nat; 5%nat], [(0%nat, 0%nat); (1%nat, 0%nat); (2%nat, 1%nat); (4%nat, 0%nat)])); QGrdp 0x1.5555555555555p-3%float (Some ([0%nat; 1%nat; 5%nat], [(0%nat, 0%nat); (1%nat, 3%nat)])); QMp 0x1.5555555555555p-3%float 4%nat (Some ([0%nat; 1%nat; 4%nat; 5%nat], [(0%nat, 0%nat); (1%nat, 2%nat); (4%nat, 0%nat)])); QMin [0x1.4e5e0a72f0538p-3%float; 0x1.0000000000000p-1%float; 0x1.0000000000000p-1%float; 0x1.5555555555555p-3%float; 0x0.0000000000001p-1022%float] 2%nat (Some ([0%nat; 5%nat], [(0%nat, 4%nat)])); QMin [0x1.4e5e0a72f0538p-3%float] 2%nat (Some ([0%nat; 1%nat; 2%nat; 4%nat; 5%nat], [(0%nat, 0%nat); (1%nat, 0%nat); (2%nat, 1%nat); (4%nat, 0%nat)])); QMin [0x1.5555555555554p-3%float; 0x1.5555555555554p-3%float] 2%nat (Some ([0%nat; 1%nat; 5%nat], [(0%nat, 0%nat); (1%nat, 3%nat)]))]) = 0%Z.
+  judge (CG 6%nat false OSegment [((0%nat, 3%nat), [0x0.0p+0%float; 0x1.5775c544ff263p+0%float; 0x0.0p+0%float]); ((0%nat, 4%nat), [0x0.0p+0%float; 0x1.94c583ada5b52p+0%float; 0x1.43d136248490ep-2%float; 0x0.0p+0%float]); ((0%nat, 5%nat), [0x0.0p+0%float; 0x1.5775c544ff263p+0%float; 0x0.0p+0%float; 0x1.c9f25c5bfeddap-2%float; 0x0.0p+0%float]); ((0%nat, 6%nat), [0x0.0p+0%float; 0x1.0000000000000p+1%float; 0x1.0000000000000p+0%float; 0x1.0000000000000p+0%float; 0x1.0000000000000p+1%float; 0x0.0p+0%float]); ((1%nat, 4%nat), [0x0.0p+0%float; 0x1.c9f25c5bfedd9p-2%float; 0x0.0p+0%float]); ((1%nat, 5%nat), [0x0.0p+0%float; 0x1.0000000000000p+0%float; 0x1.0000000000000p+0%float; 0x0.0p+0%float]); ((1%nat, 6%nat), [0x0.0p+0%float; 0x1.c9f25c5bfedd9p-2%float; 0x0.0p+0%float; 0x1.5775c544ff263p+0%float; 0x0.0p+0%float]); ((2%nat, 5%nat), [0x0.0p+0%float; 0x1.c9f25c5bfedd9p-2%float; 0x0.0p+0%float]); ((2%nat, 6%nat), [0x0.0p+0%float; 0x1.43d136248490fp-2%float; 0x1.94c583ada5b52p+0%float; 0x0.0p+0%float]); ((3%nat, 6%nat), [0x0.0p+0%float; 0x1.5775c544ff263p+0%float; 0x0.0p+0%float])] [] [((0%nat, 3%nat), 0x1.2000000000000p+1%float); ((0%nat, 4%nat), 0x1.71c71c71c71c6p+1%float); ((0%nat, 5%nat), 0x1.4000000000000p+1%float); ((1%nat, 4%nat), 0x1.0000000000000p-2%float); ((1%nat, 5%nat), 0x1.0000000000000p+1%float); ((1%nat, 6%nat), 0x1.4000000000000p+1%float); ((2%nat, 5%nat), 0x1.0000000000000p-2%float); ((2%nat, 6%nat), 0x1.71c71c71c71c9p+1%float); ((3%nat, 6%nat), 0x1.2000000000000p+1%float)] [([0%nat; 5%nat], 0x1.dddddddddddddp-2%float); ([0%nat; 1%nat; 5%nat], 0x1.4e5e0a72f0539p-3%float); ([0%nat; 1%nat; 4%nat; 5%nat], 0x1.5555555555555p-3%float); ([0%nat; 1%nat; 2%nat; 4%nat; 5%nat], 0x1.0410410410410p-5%float); ([0%nat; 1%nat; 2%nat; 3%nat; 4%nat; 5%nat], 0x0.0p+0%float)] [[0%nat; 5%nat]; [0%nat; 1%nat; 5%nat]; [0%nat; 1%nat; 4%nat; 5%nat]; [0%nat; 1%nat; 2%nat; 4%nat; 5%nat]; [0%nat; 1%nat; 2%nat; 3%nat; 4%nat; 5%nat]] [QGrdp 0x1.ddddddddddddep-2%float (Some ([0%nat; 5%nat], [(0%nat, 4%nat)])); QMp 0x1.ddddddddddddep-2%float 3%nat (Some ([0%nat; 1%nat; 5%nat], [(0%nat, 0%nat); (1%nat, 3%nat)])); QMp 0x1.ddddddddddddep-2%float 5%nat (Some ([0%nat; 1%nat; 2%nat; 4%nat; 5%nat], [(0%nat, 0%nat); (1%nat, 0%nat); (2%nat, 1%nat); (4%nat, 0%nat)])); QGrdp 0x1.5555555555555p-3%float (Some ([0%nat; 1%nat; 5%nat], [(0%nat, 0%nat); (1%nat, 3%nat)])); QMp 0x1.5555555555555p-3%float 4%nat (Some ([0%nat; 1%nat; 4%nat; 5%nat], [(0%nat, 0%nat); (1%nat, 2%nat); (4%nat, 0%nat)])); QMin [0x1.4e5e0a72f0538p-3%float; 0x1.0000000000000p-1%float; 0x1.0000000000000p-1%float; 0x1.5555555555555p-3%float; 0x0.0000000000001p-1022%float] 2%nat (Some ([0%nat; 5%nat], [(0%nat, 4%nat)])); QMin [0x1.4e5e0a72f0538p-3%float] 2%nat (Some ([0%nat; 1%nat; 2%nat; 4%nat; 5%nat], [(0%nat, 0%nat); (1%nat, 0%nat); (2%nat, 1%nat); (4%nat, 0%nat)])); QMin [0x1.5555555555554p-3%float; 0x1.5555555555554p-3%float] 2%nat (Some ([0%nat; 1%nat; 5%nat], [(0%nat, 0%nat); (1%nat, 3%nat)]))]) = 0%Z.
 Proof. vm_compute. reflexivity. Qed.
